@@ -6,7 +6,7 @@
 //
 //	reset
 //	new <h> <sink> <minLevel> <bufferDepth> [<level>:<name>]*   tracelog.New with a fresh recording sink
-//	mnew <m> <h>*                                               multilog.New over existing tracelog handlers
+//	mnew <m> <h>*                                               multilog.New over existing handlers (tracelog or multilog)
 //	wg <new> <parent> <name>                                    WithGroup  -> same | new
 //	wa <new> <parent> attr*                                     WithAttrs  -> same | new
 //	en <h> <level>                                              Enabled    -> true | false
@@ -17,7 +17,8 @@
 //	log <h> <level> <tstok> <sec> <nsec> <zone> <msg> attr*     Handle(record) -> writes since the last op + return
 //	logerr <h> <level> <msg> attr*                              errs.LogAttrsWithLevel with a real *errs.Error
 //
-// attr := e | l <key> <tok> <kind> <payload> | g <key> <n> attr*n | v attr | k <key> <trace> attr
+// attr := e | l <key> <tok> <kind> <payload> | g <key> <n> attr*n | v attr | k <key> <trace> attr | s <key> <trace>
+// (`s`: the library's own *stackValue over a scripted errs.StackError whose StackTrace(true) is <trace>)
 // (`tok` is the rendering of the leaf computed by the generator with strconv/fmt/time directly; the harness ignores it,
 // the model assembles it).
 package main
@@ -201,7 +202,7 @@ func panicText(rec any) string {
 	case runtime.Error:
 		return "RUNTIMEERR"
 	}
-	return fmt.Sprint(rec)
+	return strings.ReplaceAll(fmt.Sprint(rec), "\n", "\\n")
 }
 
 func callHandle(h slog.Handler, r slog.Record) string {
@@ -265,7 +266,8 @@ func fmtErr(err error) string {
 	if len(items) > 200 { // a correct aggregate has at most two items per child; keep a runaway chain printable
 		items = append(items[:200], "...")
 	}
-	return "ret=" + strconv.Itoa(e.Count()) + "[" + strings.Join(items, ",") + "]"
+	// one output line per operation, whatever a (mutated) library puts into a message
+	return "ret=" + strconv.Itoa(e.Count()) + "[" + strings.ReplaceAll(strings.Join(items, ","), "\n", "\\n") + "]"
 }
 
 // settle brings every buffered sink to a deterministic state and returns false if one is stuck.
@@ -449,8 +451,8 @@ func (ss *session) run(f []string) string {
 		return fmt.Sprintf("level=%d depth=%d sink=%s", int(cfg.Level.Level()), cfg.BufferDepth, where)
 	case "mnew":
 		kids := make([]slog.Handler, 0, len(f)-2)
-		for _, k := range f[2:] {
-			h, ok := ss.handlers[k].(*tracelog.Handler)
+		for _, k := range f[2:] { // tracelog handlers, or fan-out handlers made earlier (nesting)
+			h, ok := ss.handlers[k]
 			if !ok {
 				return "bad-op"
 			}
@@ -752,7 +754,7 @@ func (ss *session) logX(f []string) string {
 			if bytes.HasSuffix(w, []byte("\n"+trace+"\n")) {
 				w = append(bytes.Clone(w[:len(w)-len(trace)-1]), "<<STACK>>\n"...)
 			}
-			w = bytes.ReplaceAll(w, []byte(fb), []byte("<<FB>>"))
+			w = bytes.ReplaceAll(w, []byte(fb), []byte("[<<STACK>>]"))
 		case "p": // the *errs.Error is created inside errs: only the shape of its stack text can be checked
 			// (the text must mention this function: scripted carriers in the same record have their own text)
 			for i := 0; i < len(w)-1 && w[len(w)-1] == '\n'; i++ {
@@ -765,7 +767,7 @@ func (ss *session) logX(f []string) string {
 			}
 			w = fbRx.ReplaceAllFunc(w, func(m []byte) []byte {
 				if bytes.Contains(m, []byte("logX")) {
-					return []byte("stack_trace=<<FB>>")
+					return []byte("stack_trace=[<<STACK>>]")
 				}
 				return m
 			})
@@ -778,7 +780,7 @@ func (ss *session) logX(f []string) string {
 // ---------------------------------------------------------------------------------------------- attribute trees
 
 type node struct {
-	kind    byte // e l g v k
+	kind    byte // e l g v k s
 	key     string
 	tok     string
 	leaf    byte
@@ -858,6 +860,11 @@ func parseNode(ws []string) (*node, []string, bool) {
 			return nil, nil, false
 		}
 		return &node{kind: 'k', key: string(hx.UnHex(ws[1])), trace: string(hx.UnHex(ws[2])), inner: in}, rest, true
+	case "s":
+		if len(ws) < 3 {
+			return nil, nil, false
+		}
+		return &node{kind: 's', key: string(hx.UnHex(ws[1])), trace: string(hx.UnHex(ws[2]))}, ws[3:], true
 	}
 	return nil, nil, false
 }
@@ -931,10 +938,13 @@ func (n *node) build() slog.Attr {
 	case 'k':
 		in := n.inner.build()
 		return slog.Attr{Key: n.key, Value: slog.AnyValue(&carrier{st: &scriptedStack{trace: n.trace}, fb: in.Value})}
+	case 's':
+		return slog.Any(n.key, realStackValue(&scriptedStack{trace: n.trace}))
 	}
 	return slog.Attr{}
 }
 
 func main() {
-	hx.Main(map[string]hx.Area{"log": logArea{}, "stress": stressArea{}, "recovery": recoveryArea{}, "sched": schedArea{}})
+	hx.Main(map[string]hx.Area{"log": logArea{}, "stress": stressArea{}, "recovery": recoveryArea{}, "sched": schedArea{},
+		"rec": recArea{}})
 }
